@@ -31,7 +31,7 @@ def controller_routes(vol, rep):
         ("GET", "/v1/schemas", None, False), ("GET", "/metrics", None, False),
         ("POST", V + "?action=snapshot", {"name": "fz1"}, True),
         ("POST", V + "?action=revert", {"name": "nosuch"}, True),
-        ("POST", V + "?action=resize", {"name": "vol", "size": "32768"}, True),
+        ("POST", V + "?action=resize", {"name": "vol", "size": "262144"}, True),
         ("POST", V + "?action=setlogging", {"enable": True, "maxlogfilesize": 1, "retentionperiod": 1, "maxbackups": 1}, True),
         ("POST", V + "?action=start", {"replicas": ["tcp://127.9.9.9:9502"]}, True),
         ("DELETE", V + "?action=deleteSnapshot", {"name": "nosuch"}, True),
@@ -49,10 +49,10 @@ REPLICA_ACTIONS = ["start", "reload", "updatecloneinfo", "snapshot", "open", "cl
                    "replacedisk", "setrebuilding", "setlogging", "create", "revert", "prepareremovedisk",
                    "setrevisioncounter", "setreplicamode", "setcheckpoint"]
 REPLICA_BODY = {
-    "start": {"Action": "start"}, "updatecloneinfo": {"snapName": "x", "revisionCount": "1"},
-    "snapshot": {"name": "fz", "usercreated": True, "created": "2026"}, "resize": {"name": "vol", "size": "32768"},
+    "start": {"Action": "start"}, "updatecloneinfo": {"snapname": "x", "revisioncounter": "1"},
+    "snapshot": {"name": "fz", "usercreated": True, "created": "2026"}, "resize": {"name": "vol", "size": "262144"},
     "removedisk": {"name": "volume-snap-nosuch.img"}, "replacedisk": {"target": "a", "source": "b"},
-    "setrebuilding": {"rebuilding": True}, "setlogging": {"enable": False}, "create": {"size": "16384"},
+    "setrebuilding": {"rebuilding": True}, "setlogging": {"logtofile": {"enable": False}}, "create": {"size": "16384"},
     "revert": {"name": "volume-snap-nosuch.img", "created": "2026"}, "prepareremovedisk": {"name": "nosuch"},
     "setrevisioncounter": {"counter": "7"}, "setreplicamode": {"mode": "RW"}, "setcheckpoint": {"snapshotName": "x"},
 }
@@ -179,7 +179,7 @@ class Child:
 
 DISRUPTIVE = ("action=shutdown", "/v1/delete", "action=close", "action=open", "action=create", "action=revert",
               "action=reload", "DELETE", "action=start", "action=snapshot", "action=resize", "action=setrebuilding",
-              "action=setreplicamode", "PUT", "action=verifyrebuild", "action=removedisk", "action=replacedisk")
+              "action=setreplicamode", "PUT", "action=verifyrebuild", "action=removedisk", "action=replacedisk", "action=updatecloneinfo")
 
 
 def plan(side, state, rng, quick):
@@ -211,6 +211,16 @@ def plan(side, state, rng, quick):
         rest = [r for r in reqs if not (r["cls"] == "valid" and r["idok"])]
         reqs = valid + rest[:max(0, 80 - len(valid))]
         rng.shuffle(reqs)
+    # two-step interactions: every ordered pair of a few state-changing requests, no restart in between
+    # (a request that leaves the replica in a state the next one stumbles over)
+    if side == "replica" and state in ("open", "dirty"):
+        steppers = [r for r in routes if r[4] in ("updatecloneinfo", "reload", "setrebuilding", "revert", "snapshot", "setcheckpoint")]
+        pairs = [(a, b) for a in steppers for b in steppers if a is not b]
+        rng.shuffle(pairs)
+        for a, b in pairs[:(10 if quick else 30)]:
+            for k, (m, p, valid, needs, action) in enumerate((a, b)):
+                reqs.append(dict(method=m, path=p, cls="valid", body=json.dumps(valid).encode() if valid else b"",
+                                 needs=False, action=action, idok=True, norestart=(k == 0), restart_after=(k == 1)))
     # request sequences: the same signal / request several times in a row without a restart in between
     for (m, p, valid, needs, action) in routes:
         if action in ("start", "setlogging", "prepareremovedisk") or p.endswith("/v1/register") or "action=snapshot" in p:
@@ -318,12 +328,72 @@ def fuzz_one(work, worker, side, state, seed, quick):
                                exit=(ch.proc.poll() if not alive else 0), body=rq["body"][:120].decode("latin1")))
             disruptive = any(x in (rq["method"] + " " + path) for x in DISRUPTIVE) and 200 <= status < 300 \
                 and not rq.get("norestart")
-            if not alive or not lockfree or not probe or disruptive:
+            if not alive or not lockfree or not probe or disruptive or rq.get("restart_after"):
                 ch.start()      # back to the state under test
         events += storm(ch, side, state, worker, rng, quick)
         return events
     finally:
         ch.stop()
+
+
+def matrix_part(tier, seed):
+    """REST half of C17 (embedded in the replica family's C17 check): every replica action with its
+    valid body in the four replica states; rule Matrix only (an action the state does not offer must be
+    refused without a state change).  Returns (violations, stats)."""
+    quick = tier == "quick"
+    build_harness(["ctrldrv"])
+    work = scratch("restm.")
+    try:
+        from concurrent.futures import ThreadPoolExecutor
+        targets = [("replica", "closed"), ("replica", "open"), ("replica", "dirty"), ("replica", "rebuilding")]
+
+        def one(i, side, st):
+            rng = random.Random(seed * 100 + 70 + i)
+            ch = Child(work, 20 + i, side, st)
+            ch.start()
+            events = []
+            try:
+                n = 0
+                for (m, p, valid, needs, action) in replica_routes():
+                    if not action:
+                        continue
+                    if not ch.alive():
+                        ch.start()
+                    before = ch.state_now()
+                    body = json.dumps(valid).encode() if valid is not None else b""
+                    status, _ = ch.request(m, p, body)
+                    alive = ch.alive()
+                    after = ch.state_now() if alive else {}
+                    n += 1
+                    events.append(dict(n=(20 + i) * 100000 + n, side=side, state=st, method=m, path=p, **{"class": "valid"},
+                                       status=status, alive=alive, lockfree=True, probe=True, needsbody=False, action=action,
+                                       idok=True, before=(before.get("state") or ""), after=(after.get("state") or ""),
+                                       exit=0, body=body[:120].decode("latin1")))
+                    if (before.get("state") or "") != (after.get("state") or "") or not alive or \
+                            (200 <= status < 300 and any(x in p for x in ("close", "open", "create", "revert", "reload", "snapshot", "resize", "setre", "remove", "replace", "start", "update"))):
+                        ch.start()
+                return events
+            finally:
+                ch.stop()
+        with ThreadPoolExecutor(max_workers=4) as ex:
+            futs = [ex.submit(one, i, side, st) for i, (side, st) in enumerate(targets)]
+            events = [e for f in futs for e in f.result()]
+        tf = os.path.join(work, "restm.ndjson")
+        with open(tf, "w") as f:
+            for e in events:
+                f.write(json.dumps(e) + "\n")
+        result = run_tlc_trace("RestTrace", {"Bug": "{}", "MaxReq": 1}, tf, timeout=900, invariants=("Finish",))
+        violations = []
+        for f in result["failed"]:
+            if "Matrix" not in f["rules"]:
+                continue
+            rq = f["req"]
+            sig = dict(rule=["Matrix"], site="POST action=%s" % rq["action"], context="replica:%s" % rq["state"])
+            rec = dict(property="C17", signature=sig, request=rq, scenario=dict(layer="REST"))
+            violations.append((save_replay("C17", "%s-matrix-%s" % (tier, fingerprint(sig)), rec), rec))
+        return violations, dict(requests=len(events), states=4, refused=sum(1 for e in events if not (200 <= e["status"] < 300)))
+    finally:
+        shutil.rmtree(work, ignore_errors=True)
 
 
 def run(prop, tier, seed, replay=None):
